@@ -907,6 +907,8 @@ CORPUS = [
 
 
 def run(ctx):
+    from checks import isolate
+    isolate.enter(ctx)
     from concurrent.futures import ThreadPoolExecutor
     bindirs = {}
     for fmt in FORMATS:
@@ -1052,6 +1054,8 @@ def _tuplify(p):
 
 
 def replay(ctx, path):
+    from checks import isolate
+    isolate.enter(ctx)
     obj = json.load(open(path))
     fi = obj.get("failing_input") or obj.get("first_disagreeing_input")
     if not fi or "project" not in fi:
